@@ -41,9 +41,42 @@ Injective == /\ \A t1, t2 \in Targets : InternalName(t1[1], t1[2]) = InternalNam
 (* the collisions of the naming scheme, as TLC enumerates them (evidence of the open finding F-C16-1) *)
 Collisions == {<<t1, t2>> \in Targets \X Targets : t1 # t2 /\ InternalName(t1[1], t1[2]) = InternalName(t2[1], t2[2])}
 
+(***************************************************************************)
+(* Deep references: a reference may point BELOW a component, and into a    *)
+(* component of another collection than its own kind (the body schema of a *)
+(* response: lib#/components/responses/Pet/content/application~1json/      *)
+(* schema).  The resolver cuts "components/<collection of the reference's  *)
+(* own kind>" out of the fragment and nothing else (design "own"), so the  *)
+(* collection of a foreign container stays part of the name.  A target is  *)
+(* [coll, name, sub, kind]: the pointer tokens below the component are sub *)
+(* (already sanitised), kind is the kind of the reference.                 *)
+(* Design "any" (cut "components/<whatever>") is the variant that merges   *)
+(* same-named components of two collections; "base" (for references back  *)
+(* into the root: keep only the last pointer token) the one that merges    *)
+(* same-named leaves of two components.  Both are refuted here at design   *)
+(* level and realised against the code by the shapes deepcomp_twocoll,     *)
+(* deepback2 and deepback_named of Gen_C02.                                *)
+(***************************************************************************)
+DeepSegs(design, t) ==
+   CASE design = "own" -> (IF t.coll = t.kind THEN <<t.name>> \o t.sub ELSE <<"components", t.coll, t.name>> \o t.sub)
+     [] design = "any" -> <<t.name>> \o t.sub
+     [] design = "base" -> (IF t.sub = <<>> THEN <<t.name>> ELSE <<t.sub[Len(t.sub)]>>)
+DeepName(design, file, t) == JoinU(file \o DeepSegs(design, t))
+
+SubsOf(coll) == CASE coll = "schemas" -> {<<>>, <<"properties", "p">>}
+                  [] coll \in {"parameters", "headers"} -> {<<"schema">>}
+                  [] coll \in {"requestBodies", "responses"} -> {<<"content", "application_1json", "schema">>}
+DeepTargets == UNION {{[coll |-> c, name |-> n, sub |-> sb, kind |-> "schemas"] : n \in {"Pet", "Cat", "p"}, sb \in SubsOf(c)}
+                         : c \in {"schemas", "parameters", "headers", "requestBodies", "responses"}}
+DeepInjective(design, file) == \A t1, t2 \in DeepTargets : DeepName(design, file, t1) = DeepName(design, file, t2) => t1 = t2
+
 VARIABLE x
 Init == x = 0
 Next == UNCHANGED x
 Spec == Init /\ [][Next]_x
 NamesInjective == (x = 0) => Injective
+(* external file "lib" and the root document itself (no file part) *)
+DeepNamesInjectiveAsBuilt == (x = 0) => (DeepInjective("own", <<"lib">>) /\ DeepInjective("own", <<>>))
+DeepNamesInjectiveCutAny == (x = 0) => DeepInjective("any", <<"lib">>)
+DeepNamesInjectiveBase == (x = 0) => DeepInjective("base", <<>>)
 =============================================================================
